@@ -48,9 +48,9 @@ class Transaction(transaction.Transaction):
 
     @raw_payee.setter
     def __raw_payee(self, value: Optional[EscapedString]) -> None:
+        self.raw_string1 = value
         if value is not None and self.raw_narration is None:
             self.raw_narration = EscapedString.from_value('') 
-        self.raw_string1 = value
 
     @internal.custom_property
     def raw_narration(self) -> Optional[EscapedString]:
